@@ -66,7 +66,8 @@ class DefFun:
                 body = self.body_fn(*params)
             finally:
                 _MODE["rec"] = old
-            z3.RecAddDefinition(self._rec, params, body)
+            # bodies assembled from stored terms (derived summaries) still mention the uninterpreted twins
+            z3.RecAddDefinition(self._rec, params, to_rec(body))
         return self._rec
 
 
@@ -156,6 +157,12 @@ def _asserted_testers(formulas, acc):
         k = f.decl().kind()
         if k == z3.Z3_OP_AND:
             _asserted_testers([f.arg(i) for i in range(f.num_args())], acc)
+        elif k in (z3.Z3_OP_EQ, z3.Z3_OP_IFF) and f.num_args() == 2 and z3.is_bool(f.arg(1)):
+            # a defining equation  P(..) == (is_K(t) /\ ...): if P(..) holds the testers on the right hold;
+            # the guarded instances generated for them are sound either way
+            _asserted_testers([f.arg(1)], acc)
+        elif k == z3.Z3_OP_IMPLIES and f.num_args() == 2:
+            _asserted_testers([f.arg(1)], acc)
         elif k in (z3.Z3_OP_DT_IS, z3.Z3_OP_DT_RECOGNISER):
             t = f.arg(0)
             acc.setdefault(t.get_id(), (t, []))[1].append(f.decl())
